@@ -25,6 +25,9 @@ SYMLINKS = {"allowed/link_out.py": "../outside/v_out.py", "allowed/linkdir": "..
 SIBLINGS = {"pipe/a_sibling.yml": {"name": "sib", "priority": 99},
             "pipe/sub/z_sibling.yml": {"priority": 99, "transformations": [{"type": "set_state", "key": "k", "val": "v"}]}}
 # value files for the file source
+# Jinja2 template files for `path` templates
+TPL_FILES = {"tpl/q.j2": "P{{ query }}", "tpl/f.j2": "{{ queries|join(';') }}", "tpl/hostile_q.j2": "{{ query.__class__ }}",
+             "tpl/hostile_f.j2": "{{ cycler.__init__.__globals__.os.popen('echo C16PWN').read() }}"}
 SRC_FILES = {"src/values_a.txt": "EXTVAL_fa\n", "src/values_b.txt": "EXTVAL_fb1\nEXTVAL_fb2\n",
              "src/values.csv": "col,other\nEXTVAL_fc,x\n"}
 
@@ -33,7 +36,7 @@ def root():
     global _ROOT
     if _ROOT is None:
         r = os.path.realpath(tempfile.mkdtemp(prefix="verif_c16_"))
-        for d in ("allowed/sub", "allowed_evil", "outside", "pipe/sub/deep/below", "src"):
+        for d in ("allowed/sub", "allowed_evil", "outside", "pipe/sub/deep/below", "src", "tpl"):
             os.makedirs(os.path.join(r, d))
         for rel, vid in VARS_FILES.items():
             with open(os.path.join(r, rel), "w") as f:
@@ -42,7 +45,7 @@ def root():
                         f"vars = {{'mark': (lambda: 'VARSMARK_{vid}')}}\n")
         for rel, target in SYMLINKS.items():
             os.symlink(target, os.path.join(r, rel))
-        for rel, content in SRC_FILES.items():
+        for rel, content in list(SRC_FILES.items()) + list(TPL_FILES.items()):
             with open(os.path.join(r, rel), "w") as f:
                 f.write(content)
         _ROOT = r
@@ -125,7 +128,27 @@ def _paths(v, r):
     return ["<weird>", unsubst(repr(v), r)]
 
 
-def walk(p, r):
+def sandbox_state(t):
+    """is the Jinja2 template of this object evaluated in a sandbox?  Looked at twice, without running anything of the
+    document: the class of the template's environment, and a probe expression (attribute with leading underscores on
+    an int) rendered in that same environment, which only a sandbox refuses."""
+    from jinja2.sandbox import SandboxedEnvironment
+    from jinja2.exceptions import SecurityError
+    tpl = getattr(t, "j2template", None)
+    env = getattr(tpl, "environment", None)
+    if env is None:
+        return False
+    refused = False
+    try:
+        env.from_string("{{ x.__class__.__name__ }}").render(x=1)
+    except SecurityError:
+        refused = True
+    except Exception:
+        refused = False
+    return isinstance(env, SandboxedEnvironment) and refused
+
+
+def walk(p, r, unsb=None):
     from sigma.processing.templates import TemplateBase
     from sigma.processing.transformations.external import (
         ExternalSourceBaseTransformation, FilePlaceholderTransformation, HTTPPlaceholderTransformation,
@@ -143,11 +166,13 @@ def walk(p, r):
                 kind, src = "other", ""
             return ["ext", kind, unsubst(src if isinstance(src, str) else repr(src), r), _flag(t.allow_external_sources)]
         if isinstance(t, TemplateBase):
+            if unsb is not None and not sandbox_state(t):
+                unsb.append(type(t).__name__)
             return ["tpl", unsubst(t.vars, r) if isinstance(t.vars, str) or t.vars is None else repr(t.vars),
                     _flag(t.allow_template_vars), _paths(t.vars_allowed_paths, r)]
         np = getattr(t, "_nested_pipeline", None)
         if np is not None:
-            w = walk(np, r)
+            w = walk(np, r, unsb)
             return ["nest", w["items"] + w["post"] + w["fin"]]
         return ["plain"]
 
@@ -254,9 +279,12 @@ def run_case(case):
         res["conv"] = None
         res["leak"] = False
         res["out"] = None
+        res["unsandboxed"] = []
         if pipeline is not None:
             _STATE["active"] = False
-            res["tree"] = walk(pipeline, r)
+            unsb = []
+            res["tree"] = walk(pipeline, r, unsb)
+            res["unsandboxed"] = unsb
             _STATE["active"] = True
             sel = "".join(f"        f{i}|expand: '%{ph}%'\n" for i, ph in enumerate(case["phs"])) or "        f: v\n"
             try:
